@@ -28,3 +28,7 @@ CLAIMS['C17'] = ('other', 'proved (string VCs over the real AST of composers/edi
                  'bounded: composed EDIF files re-read and compared, rename table checked against the oracle', _MIX + '; ' + _BN, _MT, 'DESIGN.md 0.1, 6/C17')
 CLAIMS['C20'] = ('other', 'proved: soundness of rejection for the six element-level Comparer functions (normal return implies the examined attributes are equal), for all heaps satisfying Inv; '
                  'bounded: clones accepted, single structural edits rejected, over seeded netlists', _MIX + '; ' + _BN, _MT, 'DESIGN.md 0.1, 6/C20')
+CLAIMS['C10'] = ('other', 'proved (VCs from the real AST, heap-dictionary model): DefaultNamespace/EdifNamespace.no_conflict/update/remove/lookup against the abstract table view, and the NamespaceManager hooks '
+                 'add/remove/dictionary_set/dictionary_delete/dictionary_pop/lookup through those contracts: an edit is refused exactly for a sibling owning the name / lower-cased identifier or an illegal EDIF identifier and then changes no table, '
+                 'removal never refuses and drops exactly the element\'s entries, every other entry of every table is unchanged; '
+                 'bounded: tables agree with a scan after every call of seeded histories under both policies (incl. clone, parse, policy switches)', _MIX + '; ' + _BN, _MT, 'DESIGN.md 0.1, 6/C10')
